@@ -14,7 +14,8 @@ import c13_gen
 
 NONASCII = c13_gen.NONASCII + [" ", " ", "﻿", "́", "ß", "Ω"]
 PUNCT = ["0", "x", "(", ")", ",", "{", "}", "[", "]", "#d8", ":", "=", "\n", "1 +", "`", "@", "0x", "'", '"', "#", "=>", ".", "..", "-", "!",
-         "#if", "#else", "#elif", "#fn", "#ruledef", "#subruledef", "#include", "#bankdef", "#bank", "#assert", "asm", "$", "<", ">", "?", ";", ";*", "*;", "\\"]
+         "#if", "#else", "#elif", "#fn", "#ruledef", "#subruledef", "#include", "#bankdef", "#bank", "#assert", "asm", "$", "<", ">", "?", ";", ";*", "*;", "\\",
+         "\r", "\r\n", "\x00", "\t", "\x0c", "\ufeff", "#once", "#noemit", "#bits", "#labelalign", "#addr", "#align", "#res", "#d", "incbin", "le", "sizeof"]
 EDIT_KINDS = ["delete", "duplicate", "swap", "replace", "nonascii_token", "nonascii_inside_token", "nonascii_in_comment_or_string",
               "nonascii_comment", "splice_line", "unbalanced", "delete_line", "duplicate_line"]
 
@@ -78,6 +79,17 @@ def mutate(rng, text, nedits, donors):
                 toks[lo:lo] = toks[lo:hi]
         kinds.append(k)
     return "".join(toks), kinds
+
+
+RAW = [b"\xff", b"\xc3", b"\x80", b"\xe3\x81", b"\xf0\x9f", b"\x00", b"\xef\xbb\xbf", b"\xed\xa0\x80", b"\xc0\xaf", b"\xf4\x90\x80\x80"]
+
+
+def raw_bytes(rng, b, n):
+    """insert n ill-formed / truncated UTF-8 sequences at arbitrary byte offsets (also inside a multi-byte character)"""
+    for _ in range(n):
+        at = rng.range(0, len(b))
+        b = b[:at] + rng.choice(RAW) + b[at:]
+    return b
 
 
 def nesting_depth(b):
